@@ -62,7 +62,10 @@ def gen_cases(rng, tier):
         ops = rand_path_ops(rng, w / 2, h / 2, max(2.0, min(w, h) / 2 - 1), curves=rng.random() < 0.3) if op == 3 else []
         cases.append(("mask_ops", [op, w, h, rng.getrandbits(40)] + ops))
     # Mask::fill_path onto existing data (fill_px kind 3 of the C03 module)
-    cases += [c for c in _c03.gen_cases(rng, tier) if c[0] == "fill_px" and c[1][2] == 3][:30 if tier == "quick" else 400]
+    c03cases = _c03.gen_cases(rng, tier)
+    cases += [c for c in c03cases if c[0] == "fill_px" and c[1][2] == 3][:30 if tier == "quick" else 400]
+    # Mask::fill_path on masks wider / taller than one tile (fill_px kind 1 of the C03 module: the coverage a tiled mask ends up with)
+    cases += [c for c in c03cases if c[0] == "fill_px" and c[1][2] == 1 and max(c[1][3], c[1][4]) > 8191][:24 if tier == "quick" else 200]
     return cases
 
 
